@@ -1,5 +1,6 @@
 import StorageModel.C17.SnapshotProofs
 import StorageModel.C17.StagedProofs
+import StorageModel.C17.TimelineConc
 import StorageModel.C17.LockProofs
 import StorageModel.C17.LockTable
 import StorageModel.Generated.DbLocks
@@ -364,6 +365,96 @@ example :
     (cachedPoll duringStream.1 new).2 = some 1 ∧                -- after the swap: the OLD id
     (cachedPoll cacheAtEntry new).2 = some 2 := by              -- without the poll: correct
   decide
+
+/-! ## "fresh id exactly once" under concurrent requests
+
+  Requests are programs of atomic steps, one per bolt transaction (C17/TimelineConc.lean); an
+  interleaving is the list of requester indices in the order in which their steps happen. -/
+
+/-- **timeline once, concurrently.**  After a restore (reset marker set), for ANY number of
+    GetTimelineId requests in `default` / `initIfEmpty` mode running the code's program (decision and
+    action in one Update transaction) and for EVERY interleaving of their steps — every prefix of
+    it too: idF is called at most once; whoever has finished returned that one fresh id; and once
+    every requester has had its turn, exactly one id was generated and every request returned it. -/
+theorem timeline_once_concurrent (sys : Sys) (hrt : sys.db.mt.rt = some true) (ms : List Mode)
+    (hms : ∀ m ∈ ms, m ≠ Mode.forceReset) (sched : List Nat) :
+    let s := texec (tinit sys [.atomic] ms) sched
+    (∀ r ∈ s.reqs, ∀ ret, r = .done ret → ret = some (sys.idf + 1) ∧ s.sys.idf = sys.idf + 1) ∧
+    s.sys.idf ≤ sys.idf + 1 ∧
+    ((∀ i, i < ms.length → i ∈ sched) → ms ≠ [] →
+      s.sys.idf = sys.idf + 1 ∧ s.sys.db.mt.tl = some (sys.idf + 1) ∧ ∀ r ∈ s.reqs, r = .done (some (sys.idf + 1))) := by
+  intro s
+  have h0 := tinit_fresh sys hrt ms hms
+  have hinv : TInv sys.idf s := texec_inv sys.idf _ sched h0
+  have hlen : s.reqs.length = ms.length := by simp [s, texec_length, tinit]
+  refine ⟨?_, ?_, ?_⟩
+  · intro r hr ret hret
+    rcases hinv with ⟨_, _, hall⟩ | ⟨_, hidf, hall⟩
+    · obtain ⟨m, _, hm⟩ := hall r hr
+      rw [hm] at hret; cases hret
+    · rcases hall r hr with ⟨m, _, hm⟩ | hd
+      · rw [hm] at hret; cases hret
+      · rw [hd] at hret; cases hret; exact ⟨rfl, hidf⟩
+  · rcases hinv with ⟨_, hidf, _⟩ | ⟨_, hidf, _⟩ <;> omega
+  · intro hall hne
+    have hdone : ∀ r ∈ s.reqs, r = .done (some (sys.idf + 1)) := by
+      intro r hr
+      obtain ⟨i, hi, hget⟩ := List.mem_iff_getElem.mp hr
+      have := texec_scheduled_done sys.idf _ sched h0 i (hall i (by omega)) (by simpa [tinit] using (by omega : i < ms.length))
+      rw [List.getElem?_eq_getElem hi, hget] at this
+      exact Option.some.inj this
+    have hpos : 0 < s.reqs.length := by
+      rw [hlen]; exact List.length_pos_iff.mpr hne
+    rcases hinv with ⟨_, _, hw⟩ | ⟨hset, hidf, _⟩
+    · -- somebody has finished, so this is not the fresh phase
+      obtain ⟨m, _, hm⟩ := hw _ (List.getElem_mem hpos)
+      rw [hdone _ (List.getElem_mem hpos)] at hm; cases hm
+    · exact ⟨hidf, hset.2, hdone⟩
+
+/-- **obligation on the regenerated table** (Generated/DbLocks.lean, `dbMetaOps`, from boltz/db.go now):
+    GetTimelineId is ONE Update transaction that reads both markers, calls idF and writes both markers under
+    a guard on the values read in that same transaction — i.e. the requester program `[atomic]` of
+    `timeline_once_concurrent`.  Splitting it into a read-only check and a separate write breaks this. -/
+theorem timeline_steps_expected : readTlProgram (MetaOps.get Generated.dbMetaOps "GetTimelineId") = some [.atomic] := by decide
+
+/-- … and GetSnapshotId is one View, MarkAsSnapshot writes both markers in one Update -/
+theorem marker_steps_expected : markerStepsExpected Generated.dbMetaOps = true := by decide
+
+/-- hence for the code's program as regenerated -/
+theorem code_timeline_once_concurrent (prog : List TlAct) (hp : readTlProgram (MetaOps.get Generated.dbMetaOps "GetTimelineId") = some prog)
+    (sys : Sys) (hrt : sys.db.mt.rt = some true) (ms : List Mode) (hms : ∀ m ∈ ms, m ≠ Mode.forceReset) (sched : List Nat)
+    (hall : ∀ i, i < ms.length → i ∈ sched) (hne : ms ≠ []) :
+    (texec (tinit sys prog ms) sched).sys.idf = sys.idf + 1 ∧
+    ∀ r ∈ (texec (tinit sys prog ms) sched).reqs, r = .done (some (sys.idf + 1)) := by
+  rw [timeline_steps_expected] at hp
+  cases hp
+  have := (timeline_once_concurrent sys hrt ms hms sched).2.2 hall hne
+  exact ⟨this.1, this.2.2⟩
+
+/-- not vacuous, and why the table obligation matters — the check-then-act split (seeded C17-6: a View
+    that reads the markers, the decision outside, then an Update that generates and stores
+    unconditionally): two requests, both checks before either write ⇒ TWO fresh ids, the requests
+    return different ids.  Run one after the other the same program behaves like the code. -/
+theorem split_program_generates_twice :
+    let sys : Sys := { db := { mt := { present := true, sid := some 1, rt := some true } } }
+    let s := texec (tinit sys [.check, .act] [.default, .default]) [0, 1, 0, 1]
+    s.sys.idf = 2 ∧ s.reqs = [.done (some 1), .done (some 2)] := by decide
+
+example :
+    let sys : Sys := { db := { mt := { present := true, sid := some 1, rt := some true } } }
+    let s := texec (tinit sys [.check, .act] [.default, .default]) [0, 0, 1, 1]
+    s.sys.idf = 1 ∧ s.reqs = [.done (some 1), .done (some 1)] := by decide
+
+/-- the reading of the seeded change's table is that split program -/
+example : readTlProgram [.tx .view [.read .resetTimeline, .read .timelineId], .decide [.resetTimeline, .timelineId],
+    .decide [.timelineId], .tx .update [.idF, .read .timelineId, .write .timelineId, .write .resetTimeline]] = some [.check, .act] := by
+  decide
+
+/-- the hypotheses are satisfiable: four requesters, an interleaving with repeats and an out-of-range index -/
+example :
+    let sys : Sys := { idf := 3, db := { mt := { present := true, sid := some 1, rt := some true, tl := some 2 } } }
+    let s := texec (tinit sys [.atomic] [.default, .initIfEmpty, .default, .initIfEmpty]) [2, 7, 0, 2, 3, 1]
+    s.sys.idf = 4 ∧ s.reqs = List.replicate 4 (.done (some 4)) := by decide
 
 /-! ## Concurrent clause: the lock protocol, for all interleavings -/
 
